@@ -491,7 +491,7 @@ func (ref *Node) DoNewChild(r node.ChildRequest) (node.Node, error) {
 		return nil, err
 	}
 	if meta.IsList(r.Meta) && r.Selection.Path.Meta != r.Meta {
-		return ref.NewList(r.Meta, obj.Interface(), ref.onListUpdate(r.Meta.(*meta.List)))
+		return ref.newList(r.Meta, obj.Interface(), ref.onListUpdate(r.Meta.(*meta.List)), ref.listNow(r.Meta.(*meta.List)))
 	}
 
 	return ref.New(r.Meta, obj.Interface())
@@ -504,6 +504,16 @@ func (ref *Node) onListUpdate(m *meta.List) NodeListUpdate {
 			return err
 		}
 		return c.set(m, update)
+	}
+}
+
+func (ref *Node) listNow(m *meta.List) func() (reflect.Value, error) {
+	return func() (reflect.Value, error) {
+		c, err := ref.container()
+		if err != nil {
+			return reflect.Value{}, err
+		}
+		return c.get(m)
 	}
 }
 
@@ -534,12 +544,19 @@ func (ref *Node) DoGetChild(r node.ChildRequest) (node.Node, error) {
 	}
 	// exists() asks without a selection
 	if meta.IsList(r.Meta) && (r.Selection == nil || r.Selection.Path.Meta != r.Meta) {
-		return ref.NewList(r.Meta, obj.Interface(), ref.onListUpdate(r.Meta.(*meta.List)))
+		return ref.newList(r.Meta, obj.Interface(), ref.onListUpdate(r.Meta.(*meta.List)), ref.listNow(r.Meta.(*meta.List)))
 	}
 	return ref.New(r.Meta, obj.Interface())
 }
 
 func (ref *Node) NewList(m meta.Meta, obj any, u NodeListUpdate) (node.Node, error) {
+	return ref.newList(m, obj, u, nil)
+}
+
+// current, when given, reads the list from the container that keeps it. A slice is replaced
+// by another one when it grows or shrinks and a node made before that would otherwise go
+// on with the slice it was made for
+func (ref *Node) newList(m meta.Meta, obj any, u NodeListUpdate, current func() (reflect.Value, error)) (node.Node, error) {
 	n, err := ref.New(m, obj)
 	if err != nil {
 		return nil, err
@@ -549,6 +566,9 @@ func (ref *Node) NewList(m meta.Meta, obj any, u NodeListUpdate) (node.Node, err
 		copy.l, err = ref.newListHandler(reflect.ValueOf(obj), u)
 		if err != nil {
 			return nil, err
+		}
+		if slice, isSlice := copy.l.(*sliceAsList); isSlice {
+			slice.current = current
 		}
 	}
 	return n, nil
